@@ -31,6 +31,10 @@ type Case struct {
 	Other int `json:"other,omitempty"`
 	// NilIface: the variant is Once1[error] and the action returns a nil error (0 = no, 1 = nil, 2 = non-nil error)
 	NilIface int `json:"nil_iface,omitempty"`
+	// After: every caller uses a second, unrelated Once value (of another variant) immediately after its Do returned
+	After bool `json:"after,omitempty"`
+	// Repeat: that many further Do calls on the same value afterwards (call counters must not wrap into a re-run)
+	Repeat int `json:"repeat,omitempty"`
 }
 
 type vals struct {
@@ -48,6 +52,8 @@ type once struct {
 	o1 sync2.Once1[int]
 	o2 sync2.Once2[int, string]
 	o3 sync2.Once3[int, string, [2]int]
+	e2 sync2.Once2[int, error]         // variant 4: last result is a non-nil error
+	e3 sync2.Once3[int, string, error] // variant 5
 	v  int
 }
 
@@ -74,6 +80,18 @@ func (o *once) do(i int, body func()) vals {
 		return vals{A: -2}
 	}
 	switch o.v {
+	case 4:
+		a, err := o.e2.Do(func() (int, error) { body(); return w.A, idErr(i) })
+		if e, ok := err.(idErr); !ok || valsOf(int(e)).A != a {
+			return vals{A: -3}
+		}
+		return valsOf(a / 1000)
+	case 5:
+		a, b, err := o.e3.Do(func() (int, string, error) { body(); return w.A, w.B, idErr(i) })
+		if e, ok := err.(idErr); !ok || valsOf(int(e)).A != a || valsOf(int(e)).B != b {
+			return vals{A: -3}
+		}
+		return valsOf(a / 1000)
 	case 1:
 		a := o.o1.Do(func() int { body(); return w.A })
 		return vals{A: a, B: valsOf(a / 1000).B, C: valsOf(a / 1000).C}
@@ -93,6 +111,12 @@ func Run(c Case) pbt.Outcome {
 	n := c.NBefore + c.NAfter
 	o := &once{v: c.Variant, ne: c.NilIface}
 	other := &once{v: c.Variant, ne: c.NilIface}
+	// a third Once value, of ANOTHER variant (other result types), which every caller uses immediately after its Do returned
+	after := &once{v: c.Variant%3 + 1}
+	gotAfter := make([]vals, n)
+	var afterInvoked atomic.Int32
+	var afterWinner atomic.Int32
+	afterWinner.Store(-1)
 	invoked := make([]atomic.Int32, n)
 	entered := make(chan int, n+1)
 	gate := make(chan struct{})
@@ -132,6 +156,12 @@ func Run(c Case) pbt.Outcome {
 		})
 		sawCompleted[i] = completed
 		returned.Add(1)
+		if c.After {
+			gotAfter[i] = after.do(2000+i, func() {
+				afterInvoked.Add(1)
+				afterWinner.Store(int32(2000 + i))
+			})
+		}
 	}
 	for i := 0; i < c.NBefore; i++ {
 		i := i
@@ -208,6 +238,41 @@ func Run(c Case) pbt.Outcome {
 		}
 		return pbt.Outcome{Evals: n, NonTrivial: c.NBefore >= 2, Labels: []string{lab, fmt.Sprintf("variant=Once%d", c.Variant)}}
 	}
+	for i := 0; i < n; i++ {
+		if panicked[i] {
+			return pbt.Fail("caller %d's Do panicked although no passed function panics", i)
+		}
+	}
+	if c.After {
+		if k := afterInvoked.Load(); k != 1 {
+			return pbt.Fail("a second Once value used by every caller right after the first: %d of its functions were invoked, want exactly 1", k)
+		}
+		wantAfter := valsOf(int(afterWinner.Load()))
+		switch after.v { // project to the arity of that variant
+		case 1:
+			wantAfter = vals{A: wantAfter.A, B: valsOf(wantAfter.A / 1000).B, C: valsOf(wantAfter.A / 1000).C}
+		}
+		for i := 0; i < n; i++ {
+			if gotAfter[i] != wantAfter {
+				return pbt.Fail("caller %d used a second, unrelated Once value right after the first one: its Do returned %+v, but that Once's invoked function returned %+v (results of different Once values got mixed up)", i, gotAfter[i], wantAfter)
+			}
+		}
+	}
+	if c.Repeat > 0 {
+		// many more calls on the same value from one goroutine: still no new invocation, same results
+		for k := 0; k < c.Repeat; k++ {
+			if g := o.do(9000, func() { invoked[0].Add(1) }); g != got[0] {
+				return pbt.Fail("call number %d on the same Once returned %+v, earlier calls returned %+v", n+k+1, g, got[0])
+			}
+		}
+		tot := 0
+		for i := range invoked {
+			tot += int(invoked[i].Load())
+		}
+		if tot != 1 {
+			return pbt.Fail("after %d further Do calls on the same value %d functions have been invoked in total, want 1", c.Repeat, tot)
+		}
+	}
 	want := valsOf(first)
 	if c.NilIface == 1 {
 		want = vals{A: -1}
@@ -221,7 +286,13 @@ func Run(c Case) pbt.Outcome {
 		}
 	}
 	out := pbt.Outcome{Evals: n, NonTrivial: c.NBefore >= 2}
-	out.Labels = append(out.Labels, fmt.Sprintf("variant=Once%d", c.Variant))
+	out.Labels = append(out.Labels, fmt.Sprintf("variant=%d", c.Variant))
+	if c.After {
+		out.Labels = append(out.Labels, "second-once-right-after")
+	}
+	if c.Repeat > 0 {
+		out.Labels = append(out.Labels, "many-further-calls")
+	}
 	if c.NBefore >= 2 {
 		out.Labels = append(out.Labels, "contended")
 	}
@@ -245,7 +316,7 @@ func counts(a []atomic.Int32) []int32 {
 var spec = pbt.Register(&pbt.Spec[Case]{
 	Property: "C17", Name: "C17.once",
 	Rule: "E4 under -race: variant in {Once1,Once2,Once3} x 1..8 early callers (each with its own function returning values unique to it, counting its invocations, signalling 'entered', " +
-		"then blocking on a harness gate, finally writing a PLAIN completion flag) x 0..4 later callers x GOMAXPROCS x arrival stagger; in one case of six every passed function panics after the gate opens (callers recover; then only 'exactly one invocation in total' is asserted), in another sixth they end their goroutine with runtime.Goexit; in half of the cases a DIFFERENT Once value of the same type runs to completion while ours is held open (from another goroutine or from inside the held action); Once1 is also instantiated with an interface result type (error) returning nil or non-nil. Oracle: exactly one 'entered' ever; while the gate is closed no Do has returned " +
+		"then blocking on a harness gate, finally writing a PLAIN completion flag) x 0..4 later callers x GOMAXPROCS x arrival stagger; in one case of six every passed function panics after the gate opens (callers recover; then only 'exactly one invocation in total' is asserted), in another sixth they end their goroutine with runtime.Goexit; in half of the cases a DIFFERENT Once value of the same type runs to completion while ours is held open (from another goroutine or from inside the held action); Once1 is also instantiated with an interface result type (error) returning nil or non-nil, Once2/Once3 with a non-nil error as last result; in a third of the cases every caller uses another, unrelated Once value (other result types) right after its Do returned; in one case of 150 300 or 65539 further calls follow on the same value. Oracle: exactly one 'entered' ever; while the gate is closed no Do has returned " +
 		"(sound: the action has not completed); afterwards every Do returned exactly the invoked function's values; total invocations == 1; every caller reads the plain flag after Do (must be true; the race detector " +
 		"reports any read not ordered after the write). non-trivial = >=2 early callers",
 	Gen: func(t *rapid.T) Case {
@@ -263,6 +334,14 @@ var spec = pbt.Register(&pbt.Spec[Case]{
 		}
 		if c.Variant == 1 && rapid.IntRange(0, 2).Draw(t, "iface") == 0 {
 			c.NilIface = rapid.IntRange(1, 2).Draw(t, "nilerr")
+		}
+		if rapid.IntRange(0, 4).Draw(t, "errresult") == 0 {
+			c.Variant = rapid.IntRange(4, 5).Draw(t, "errvariant")
+			c.NilIface = 0
+		}
+		c.After = !c.Panics && !c.Goexit && rapid.IntRange(0, 2).Draw(t, "after") == 0
+		if !c.Panics && !c.Goexit && rapid.IntRange(0, 59).Draw(t, "repeat") == 33 {
+			c.Repeat = rapid.SampledFrom([]int{300, 65536 + 3}).Draw(t, "nrepeat")
 		}
 		return c
 	},
